@@ -267,8 +267,10 @@ uint64_t api_call(const Op &op, const Vals &v_in, const Prefill &pf, bool &ok) {
     } else if (k == "bitmap.roundtrip") {
         varintBitmap *vb = varintBitmapCreate();
         if (vb) {
+            if (op.u("range") && op.u("runsfirst")) // a long range on the empty set first: a run container that the adds convert
+                varintBitmapAddRange(vb, (uint16_t)(in[0] & 0x7fff), (uint16_t)((in[0] & 0x7fff) + 4097 + (op.u("range") & 0xff)));
             for (size_t i = 0; i < n; i++) varintBitmapAdd(vb, (uint16_t)in[i]);
-            if (op.u("range")) varintBitmapAddRange(vb, (uint16_t)(in[0] & 0x7fff), (uint16_t)((in[0] & 0x7fff) + 4097 + (op.u("range") & 0xff)));
+            if (op.u("range") && !op.u("runsfirst")) varintBitmapAddRange(vb, (uint16_t)(in[0] & 0x7fff), (uint16_t)((in[0] & 0x7fff) + 4097 + (op.u("range") & 0xff)));
             Buf dst(16 + 8192 + 4 * 70000, pf, 1);
             size_t w = varintBitmapEncode(vb, dst.p);
             d.u64(w);
@@ -374,7 +376,7 @@ class Residue : public Engine {
     bool restart_after_violation() const override { return true; }
     unsigned hang_timeout_s() const override { return 6; }
     std::vector<std::string> fixed_args() const override {
-        return {"enc", "meta", "precision", "mode", "err", "threshold", "batch", "fresh", "range", "specials", "only", "churn"};
+        return {"enc", "meta", "precision", "mode", "err", "threshold", "batch", "fresh", "range", "specials", "only", "churn", "runsfirst"};
     }
 
     Plan generate(uint64_t seed, Tier tier) override {
@@ -404,7 +406,10 @@ class Residue : public Engine {
         if (op.kind == "for.decode") op.set("batch", r.below(2));
         if (op.kind == "bitmap.roundtrip") {
             cls = ARR_STRICT_INC16;
-            if (r.chance(1, 4)) op.set("range", r.range(1, 255));
+            if (r.chance(1, 3)) {
+                op.set("range", r.range(1, 255));
+                op.set("runsfirst", r.below(2));
+            }
             if (r.chance(1, 4)) { // enough members to cross the array/bitmap threshold both ways
                 op.set("churn", 1);
                 n = 4097 + r.below(700);
@@ -416,7 +421,7 @@ class Residue : public Engine {
         if ((op.kind == "adaptive.encode" || op.kind == "adaptive.decode") && r.chance(1, 30)) {
             // unsorted input above 10000 elements: the sampling branch of the unique counter
             n = 10001 + r.below(200);
-            cls = r.chance(2, 3) ? ARR_POOL : ARR_FULL64;
+            cls = r.chance(1, 2) ? ARR_POOL : (r.chance(1, 2) ? ARR_PERIODIC : ARR_FULL64);
             if (op.kind == "adaptive.decode") op.set("enc", VARINT_ADAPTIVE_TAGGED);
         }
         if (r.chance(1, tier == Tier::Thorough ? 150 : (op.kind.rfind("pfor.", 0) == 0 ? 120 : 500)) && op.kind != "bitmap.roundtrip" && op.kind.rfind("adaptive.", 0) != 0) {
